@@ -83,6 +83,8 @@ pub struct CmpObs {
     pub inner: CmpSide,
     /// hash of the borrowed form (str for strings)
     pub hash_borrowed_a: Option<u64>,
+    /// `b.clone_from(&a)`: (what b holds afterwards, what a holds)
+    pub clone_from: Option<(Value, Value)>,
 }
 
 #[derive(Clone, Copy, Debug, PartialEq, Eq, Hash)]
@@ -133,7 +135,7 @@ pub enum ArbObs {
     Panic(String),
 }
 
-pub trait Subject {
+pub trait Subject: Sync {
     fn spec(&self) -> &Spec;
     /// `try_new` when validators exist, otherwise `new`
     fn ctor(&self, raw: &Value) -> Obs;
